@@ -79,6 +79,12 @@ var Carriers = []string{"var", "tag", "rm", "map", "mapiface", "listmap", "url",
 
 const scalarKey = "k" // map key / url parameter / field name "K"
 
+// sizeAliases: names under which a call registers the library's exported size-rule functions
+// (valid.To ... valid.NoEq) - a rule function judges by what it is, not by the name it runs under.
+var sizeAliases = map[string]string{"xto": "to", "xge": "ge", "xle": "le", "xoto": "oto", "xgt": "gt", "xlt": "lt", "xeq": "eq", "xnoeq": "noeq"}
+
+var sizeAliasFns = map[string]valid.CommonValidFn{"xto": valid.To, "xge": valid.Ge, "xle": valid.Le, "xoto": valid.OTo, "xgt": valid.Gt, "xlt": valid.Lt, "xeq": valid.Eq, "xnoeq": valid.NoEq}
+
 // urlNoValue marks an entry of ScalarCase.Others that is written without '=' (a bare flag).
 const urlNoValue = "\x00no-value"
 
@@ -487,7 +493,12 @@ func (c *ScalarCase) expect() *model.Result {
 			}
 		}
 		custom := ""
-		if c.callFn(key) {
+		if lib, ok := sizeAliases[key]; ok && c.callFn(key) {
+			// the library's own exported rule function, given for this call under another name:
+			// it judges like the rule it implements
+			key = lib
+			e.Key = lib
+		} else if c.callFn(key) {
 			custom = "custom call " + key
 		} else if globalFnNames[key] {
 			custom = "custom global " + key
